@@ -1,23 +1,130 @@
 (** * C16 — hydroelastic contact forces obey action-reaction, symmetry and frame invariance.
-    Theorems only; proofs are in Proofs/HydroWrenchProofs.v, the model in Model/HydroWrench.v. *)
-From Coq Require Import Reals List Bool.
-From D3 Require Import Base.Ops Base.Vec Base.RVec Model.AabbTree Model.HydroWrench Proofs.HydroWrenchProofs.
+    Theorems only; proofs are in Proofs/HydroWrenchProofs.v and Proofs/HydroBroad.v, the model in
+    Model/HydroWrench.v (accumulate_wrenches/_transform_wrenches, express_in with its caches,
+    all_aabbs_overlap) and Model/AabbTree.v (the tree of C05). *)
+From Coq Require Import Reals Lra List Bool ZArith Lia Permutation.
+From D3 Require Import Base.Ops Base.Vec Base.RVec Base.RVec2 Model.AabbTree Model.HydroWrench
+     Proofs.AabbTreeProofs Proofs.HydroWrenchProofs Proofs.HydroBroad.
 Import ListNotations.
 Local Open Scope R_scope.
 
-(** For every contact surface (forces and centres in body 2's frame), both centres of mass and
-    every frame2world: the two world-frame forces are exactly opposite. *)
+(** ** wrench algebra (for every contact surface given in body 2's frame, both centres of mass,
+    every frame2world) *)
+(** the two world-frame forces are exactly opposite *)
 Theorem C16_action_reaction : forall (forces coms : list V3R) (com1 com2 : V3R) (T : Pose R),
   let '((f12, _), (f21, _)) := accumulate_wrenches forces coms com1 com2 T in
   f12 = vneg f21.
 Proof. exact action_reaction. Qed.
 
-Example C16_action_reaction_nonvacuous :
-  accumulate_wrenches [V 0 0 1; V 1 0 2] [V 1 0 0; V 0 1 0] (V 0 0 (-1)) (V 0 0 1)
-                      (P (M (V 0 (-1) 0) (V 1 0 0) (V 0 0 1)) (V 5 6 7))
+(** moving both bodies by one rigid motion g: body 1 expressed in body 2's frame does not change
+    (so the contact surface computed there is the same) ... *)
+Theorem C16_express_in_common_motion : forall (g T1 T2 : Pose R) (v : V3R), is_rotation (rot g) ->
+  transform_point (compose (invert_transform (compose g T2)) (compose g T1)) v =
+  transform_point (compose (invert_transform T2) T1) v.
+Proof. exact express_in_common_motion. Qed.
+(** ... and with frame2world = g o T both wrenches are rotated by the rotation of g *)
+Theorem C16_wrench_equivariance : forall (forces coms : list V3R) (com1 com2 : V3R) (g T : Pose R),
+  accumulate_wrenches forces coms com1 com2 (compose g T) =
+  (rot_wrench (rot g) (fst (accumulate_wrenches forces coms com1 com2 T)),
+   rot_wrench (rot g) (snd (accumulate_wrenches forces coms com1 com2 T))).
+Proof. exact wrench_equivariance. Qed.
+
+(** swapping the bodies: the same physical contact described in body 1's frame T' (T = T' o phi,
+    phi = (Q, s) a proper rigid motion), forces negated and rotated, centres mapped, centres of
+    mass exchanged, yields the two wrenches exchanged *)
+Theorem C16_wrench_swap : forall (forces coms : list V3R) (com1 com2 : V3R) (R' Q : M3 R) (s p p' : V3R),
+  proper_rotation Q ->
+  let phi := fun c => vadd (mulMV Q c) s in
+  accumulate_wrenches (map (fun f => vneg (mulMV Q f)) forces) (map phi coms) (phi com2) (phi com1) (P R' p') =
+  (snd (accumulate_wrenches forces coms com1 com2 (P (mmul R' Q) p)),
+   fst (accumulate_wrenches forces coms com1 com2 (P (mmul R' Q) p))).
+Proof. exact wrench_swap. Qed.
+
+(** proper rotations preserve the cross product (used by the swap theorem) *)
+Theorem C16_proper_rotation_cross : forall m : M3 R, proper_rotation m ->
+  forall a b, cross (mulMV m a) (mulMV m b) = mulMV m (cross a b).
+Proof. exact proper_rotation_cross. Qed.
+
+Definition rotz : M3 R := M (V 0 (-1) 0) (V 1 0 0) (V 0 0 1).
+Example C16_wrench_nonvacuous :
+  proper_rotation rotz /\
+  accumulate_wrenches [V 0 0 1; V 1 0 2] [V 1 0 0; V 0 1 0] (V 0 0 (-1)) (V 0 0 1) (P rotz (V 5 6 7))
   = ((V 0 (-1) (-3), V (-2) (-2) 1), (V 0 1 3, V 0 2 (-1))).
-Proof. unfold accumulate_wrenches, vsum, torques, mulMV, cross, dot, vsub, vadd, vneg, vzero.
-  cbn [fold_left map rot r0 r1 r2 vx vy vz add sub mul opp zero ROps]. repeat f_equal; ring. Qed.
+Proof.
+  split.
+  - split.
+    + intros [x y z]. unfold rotz, mulTV, mulMV, transpose, col, nthv, dot. cbn [vx vy vz r0 r1 r2 add mul ROps]. f_equal; ring.
+    + unfold det3m, rotz, dot, cross. cbn [vx vy vz r0 r1 r2 add sub mul ROps]. ring.
+  - unfold accumulate_wrenches, vsum, torques, mulMV, cross, dot, vsub, vadd, vneg, vzero, rotz.
+    cbn [fold_left map rot r0 r1 r2 vx vy vz add sub mul opp zero ROps]. repeat f_equal; ring.
+Qed.
+
+(** ** express_in *)
+(** calling express_in again with the frame the body is already in leaves the vertices where
+    they are (repetition of contact_forces on the same, re-expressed body 1) *)
+Theorem C16_express_in_idempotent : forall (A : Type) (b : body (F:=R) A) (T : Pose R), is_rotation (rot T) ->
+  vertices (express_in A (express_in A b T) T) = vertices (express_in A b T) /\
+  body2origin (express_in A (express_in A b T) T) = T.
+Proof. exact express_in_idempotent. Qed.
+(** after express_in every cached property (tetrahedra points, centre of mass, AABBs / tree) is
+    recomputed from the new vertices *)
+Theorem C16_express_in_invalidates : forall (A : Type) (fcom : list (V3R * V3R * V3R * V3R) -> V3R)
+    (faabbs : list (V3R * V3R * V3R * V3R) -> A) (b : body (F:=R) A) (T : Pose R),
+  let b' := express_in A b T in
+  let pts := map (tet_points (vertices b')) (tetrahedra b') in
+  fst (get_points A b') = pts /\ fst (get_com A fcom b') = fcom pts /\ fst (get_aabbs A faabbs b') = faabbs pts.
+Proof. exact express_in_invalidates. Qed.
+
+Example C16_express_in_nonvacuous : is_rotation rotz.
+Proof. intros [x y z]. unfold rotz, mulTV, mulMV, transpose, col, nthv, dot. cbn [vx vy vz r0 r1 r2 add mul ROps]. f_equal; ring. Qed.
+
+(** ** broad phase: the tree query over two one-batch trees ("sort" or any other permutation of
+    the rows, as RigidBody.aabb_tree builds them) lists exactly the pairs of the brute-force
+    all_aabbs_overlap, each once — for any coordinate type with a transitive order and
+    min/max that are bounds (corollary of the C05 development). *)
+Theorem C16_tree_vs_brute_same_pairs :
+  forall (C : Type) (le : C -> C -> bool) (cmin cmax : C -> C -> C) (czero : C)
+         (go_left : box C -> box C -> box C -> bool) (cost_ok : box C -> box C -> box C -> box C -> bool),
+  (forall a b c, le a b = true -> le b c = true -> le a c = true) ->
+  (forall a b, le (cmin a b) a = true) -> (forall a b, le (cmin a b) b = true) ->
+  (forall a b, le a (cmax a b) = true) -> (forall a b, le b (cmax a b) = true) ->
+  forall (a1 a2 : list (box C)) (o1 o2 : list nat) t1 t2,
+  Permutation o1 (seq 0 (length a1)) -> Permutation o2 (seq 0 (length a2)) ->
+  insert_batch C cmin cmax czero go_left cost_ok nat (empty_tree C nat) a1 None o1 = Ok t1 ->
+  insert_batch C cmin cmax czero go_left cost_ok nat (empty_tree C nat) a2 None o2 = Ok t2 ->
+  exists l, overlaps_aabb_tree C le nat t1 t2 = Ok l /\ NoDup l /\
+            forall i j, In (i, j) l <-> In (i, j) (all_aabbs_overlap le a1 a2).
+Proof.
+  intros C le cmin cmax czero go_left cost_ok Ht Hl1 Hl2 Hr1 Hr2 a1 a2 o1 o2 t1 t2 Ho1 Ho2 H1 H2.
+  exact (tree_vs_brute_same_pairs C le cmin cmax czero go_left cost_ok Ht Hl1 Hl2 Hr1 Hr2 a1 a2 o1 o2 t1 t2 Ho1 Ho2 H1 H2).
+Qed.
+
+(** non-vacuity on integer boxes: two bodies of 3 and 2 boxes, inserted in permuted order *)
+Definition zvol16 (b : box Z) : Z := ((bx1 _ b - bx0 _ b) * (by1 _ b - by0 _ b) * (bz1 _ b - bz0 _ b))%Z.
+Definition z_go_left16 (lb bl br : box Z) : bool :=
+  Z.ltb (zvol16 (merge Z Z.min Z.max lb bl)) (zvol16 (merge Z Z.min Z.max lb br)).
+Definition ex_a1 : list (box Z) := [Box 0 1 0 1 0 1; Box 2 3 0 1 0 1; Box 1 2 0 1 0 1]%Z.
+Definition ex_a2 : list (box Z) := [Box 1 1 0 1 1 2; Box 5 6 0 1 0 1]%Z.
+Example C16_tree_vs_brute_nonvacuous :
+  exists t1 t2,
+    insert_batch Z Z.min Z.max 0%Z z_go_left16 (fun _ _ _ _ => true) nat (empty_tree Z nat) ex_a1 None [2; 0; 1]%nat = Ok t1 /\
+    insert_batch Z Z.min Z.max 0%Z z_go_left16 (fun _ _ _ _ => true) nat (empty_tree Z nat) ex_a2 None [1; 0]%nat = Ok t2 /\
+    all_aabbs_overlap Z.leb ex_a1 ex_a2 = [(0, 0); (2, 0)]%nat /\
+    exists l, overlaps_aabb_tree Z Z.leb nat t1 t2 = Ok l /\ Permutation l [(0, 0); (2, 0)]%nat.
+Proof.
+  eexists. eexists. split; [vm_compute; reflexivity|]. split; [vm_compute; reflexivity|].
+  split; [vm_compute; reflexivity|]. eexists. split; [vm_compute; reflexivity|].
+  first [apply Permutation_refl | apply perm_swap].
+Qed.
 
 Print Assumptions C16_action_reaction.
-Print Assumptions C16_action_reaction_nonvacuous.
+Print Assumptions C16_express_in_common_motion.
+Print Assumptions C16_wrench_equivariance.
+Print Assumptions C16_wrench_swap.
+Print Assumptions C16_proper_rotation_cross.
+Print Assumptions C16_wrench_nonvacuous.
+Print Assumptions C16_express_in_idempotent.
+Print Assumptions C16_express_in_invalidates.
+Print Assumptions C16_express_in_nonvacuous.
+Print Assumptions C16_tree_vs_brute_same_pairs.
+Print Assumptions C16_tree_vs_brute_nonvacuous.
